@@ -89,7 +89,22 @@ def run(c, chk):
                     continue
                 v = got[1]
                 if v == sym.C0:
-                    verdict.setdefault(m, set()).add('')
+                    # NULL in the copy is right only where the caller's record has NULL (an empty string is a value, too)
+                    from .. import failpaths as _fp
+                    srcnull = False
+                    for cn, t, _ in p.assume:
+                        na = _fp.is_null_assumption(cn, t)
+                        if not na or not na[1]:
+                            continue
+                        x = na[0]
+                        if x[0] == 'ld' and x[1][0] == 'fld' and sym.root_of(x[1])[0] == 'p' and member_name(x[1]) == m:
+                            se = x[1]
+                            while se[0] == 'fld':
+                                se = se[1]
+                            if se[0] != 'idx' or ent[0] != 'idx' or sym.norm(se[2]) == sym.norm(ent[2]):
+                                srcnull = True
+                    verdict.setdefault(m, set()).add('' if srcnull else 'is left NULL on a path where the same member of the caller\'s record was not shown to be NULL '
+                                                     '(a value such as the empty string "" is lost: an option declared with the default "" reads back as NULL)')
                     continue
                 ev = next((x for x in p.events if x.kind == 'call' and x.res == v), None)
                 if ev is None or ev.name not in ('strdup', 'cfg_dupopt_array') and ev.name not in c.fresh_returning:
@@ -155,7 +170,7 @@ def run(c, chk):
             chk.ok('R16.1', 'member %s' % nm, 'owned pointer: after the raw copy its final value is NULL or a duplicate of the same member (all %d paths); released by cfg_free_opt_array()' % npaths, sample=True)
         elif inL and not inD:
             why = '; '.join(problems.get(nm, [])) or 'is not deep-copied by cfg_dupopt_array()'
-            chk.fail('R16.1', 'not-duplicated:%s' % nm, c.where(dup), 'pointer member "%s" of the option record %s: the context keeps pointing into the caller\'s declaration' % (nm, why))
+            chk.fail('R16.1', 'not-duplicated:%s' % nm, c.where(dup), 'pointer member "%s" of the option record %s%s' % (nm, why, '' if 'left NULL' in why else ': the context keeps pointing into the caller\'s declaration'))
         elif inL and not inF:
             chk.fail('R16.1', 'not-freed:%s' % nm, c.where(fr), 'pointer member "%s" is duplicated for every context but never released by cfg_free_opt_array()' % nm)
         elif not inL:
